@@ -41,7 +41,7 @@ import (
 	"github.com/prometheus/common/expfmt"
 )
 
-const watchdog = 20 * time.Second
+const watchdog = 60 * time.Second
 
 var (
 	mu        sync.Mutex
